@@ -11,7 +11,7 @@ for i in range(1, 21):
     for o in obs:
         d = per.setdefault(o.fn, {'quick': 0, 'thorough': 0, 'twins': set(), 'kf': set()})
         if o.main:
-            for t in o.tiers:
+            for t in set(o.tiers) | ({'thorough'} if 'quick' in o.tiers else set()):
                 d[t] += 1
         d['twins'] |= set(o.twins)
         if o.finding:
